@@ -147,6 +147,9 @@ func runScript(sc script, choose chooser, st *vstat.Stats, schedDesc string) str
 		_ = s.Finish(1000)
 		return "VERIF-INFRA " + err.Error()
 	}
+	if s.Misuse != "" {
+		return "VERIF-INFRA vsched: " + s.Misuse
+	}
 	if s.Panic != "" {
 		return "VERIF-KEY:queue-panic " + s.Panic
 	}
@@ -324,9 +327,9 @@ func TestC13Scheduled(t *testing.T) {
 func TestC13Exhaustive(t *testing.T) {
 	st := vstat.New("C13.exhaustive")
 	defer st.Flush()
-	bound := 2
+	smallBound, bigBound := 3, 2
 	if vstat.Thorough() {
-		bound = 3
+		smallBound, bigBound = 5, 4
 	}
 	var scripts []script
 	for a := 0; a < 4; a++ {
@@ -336,11 +339,22 @@ func TestC13Exhaustive(t *testing.T) {
 		}
 	}
 	scripts = append(scripts, script{{true}, {false}}, script{{true}, {true}}, script{{false}, {false}}, script{{true, false}, {false}, {true}})
+	nSmall := len(scripts)
+	// larger scripts with a smaller bound: three operations per thread, three threads
+	scripts = append(scripts,
+		script{{true, true, false}, {false, true, false}},
+		script{{true, false, true}, {true, false, false}},
+		script{{true, false}, {true, false}, {false, true}},
+		script{{true, true}, {false, false}, {true, false}})
 	k, n := vstat.Shard()
 	total := 0
 	for si, sc := range scripts {
 		if si%n != k {
 			continue
+		}
+		bound := smallBound
+		if si >= nSmall {
+			bound = bigBound
 		}
 		// a schedule = set of (step, switch-to-candidate-index) pre-emptions; default is
 		// "keep running the last thread, else lowest id"
@@ -394,7 +408,8 @@ func TestC13Exhaustive(t *testing.T) {
 		}
 		rec(nil, 1)
 	}
-	st.Set("preemption_bound", bound)
+	st.Set("preemption_bound_small_scripts", smallBound)
+	st.Set("preemption_bound_larger_scripts", bigBound)
 	st.Set("schedules", total)
 }
 
